@@ -10,7 +10,7 @@ use crate::{
     fp::{g_id, CFP, FP, H_ID},
     gen::{cfg_strategy, lattice, rng_strategy, triple_strategy, Cfg, Triple, TripleSpec},
     refimpl::{ref_nonce, vec_gens, Proof},
-    runner::{guarded, sub, CaseLog, PropertyDef, RunCtx, Tier, INCONCLUSIVE},
+    runner::{guarded, setup, sub, CaseLog, PropertyDef, RunCtx, Tier, INCONCLUSIVE},
     tapx::{challenge_scalar, challenges, tapped},
 };
 
@@ -34,7 +34,7 @@ impl Nonces {
 /// `g_ids`: the distinct basis ids of the blinding generators (degenerate parameter sets may have fewer than `ext`).
 /// `read_h_of_a`: also read A's coordinate on h (used when a blinding generator coincides with h).
 pub fn extract(bytes: &[u8], chal: &[Vec<u8>], g_ids: &[u128], bits: usize, a_extra: Option<u128>) -> Result<Nonces, String> {
-    let pf = Proof::parse_layout(bytes).map_err(|e| format!("{:?}", e))?;
+    let pf = Proof::parse_layout(bytes).map_err(crate::runner::skip_err)?;
     let dec = |b: &[u8; 32]| CFP(*b).decompress().ok_or_else(|| format!("{} proof point not decodable", INCONCLUSIVE));
     let a = dec(&pf.a)?;
     let a1 = dec(&pf.a1)?;
@@ -89,7 +89,7 @@ pub fn oracle(_ctx: &RunCtx, spec: &FreshSpec, log: &mut CaseLog) -> Result<(), 
     let g_ids: Vec<u128> = (0..cfg.ext).map(g_id).collect();
     let run = |rng: RngSpec| -> Result<(Vec<u8>, Nonces), String> {
         let (p, ev) = tapped(|| guarded(|| F::prove(&mut t.transcript(), &t.st, &t.w, &mut rng.make())));
-        let p = p?.map_err(|e| format!("prover refused a valid witness: {:?}", e))?;
+        let p = setup(p, "the prover refused or panicked on a valid witness (C01's subject)")?;
         let bytes = p.to_bytes();
         let n = extract(&bytes, &challenges(&ev), &g_ids, cfg.bits, None)?;
         Ok((bytes, n))
